@@ -151,8 +151,7 @@ def check(run):
     for k in (5, len(mo) // 2, len(mo) - 1):
         run.sample({"case": case_lines[k][:200], "model": mo[k][:160], "impl": io[k][:160]})
     report_diffs(run, diffs, "coq/Transport.v", "PacketTransport::read_packet / write_packet (zvt/src/io.rs)", "transport")
-    if any(not v.get("no_failing_input_found") for v in run.violations):
-        run.violations = [v for v in run.violations if not v.get("no_failing_input_found")]
+    vlib.prefer_concrete(run)
     return vlib.finish(run, trusted_base=TB, assumptions=["tokio read_exact has the modelled contract (partial: sampled, not proved)",
                                                            "an in-memory AsyncRead stands for the TCP socket"])
 
